@@ -93,13 +93,18 @@ def _serve():
         del conn, pid
 
 
-def _recvn(conn, n: int) -> bytes:
-    buf = b''
-    while len(buf) < n:
-        b = conn.recv(n - len(buf))
-        if not b:
+def _recvn(conn, n: int):
+    """Reads exactly n bytes into one preallocated buffer: how the kernel happens to chunk the
+    request must not change what the child allocates (its heap layout is part of the run)."""
+    buf = bytearray(n)
+    view = memoryview(buf)
+    got = 0
+    while got < n:
+        k = conn.recv_into(view[got:], n - got)
+        if not k:
             raise EOFError('short read')
-        buf += b
+        got += k
+    view.release()
     return buf
 
 
